@@ -2002,6 +2002,23 @@ class ReferenceManager:
                 if spec:
                     self._manager.del_spec(spec)
 
+    def forget_ref(self, ref):
+        """Stop tracking ``ref``, which is deleted with its parent space"""
+        val = ref.interface
+        if isinstance(val, Interface):
+            return
+        refs = self._valid_to_refs.get(id(val))
+        if refs and any(ref is r for r in refs):
+            refs[:] = [r for r in refs if r is not ref]
+            if not refs:
+                del self._valid_to_refs[id(val)]
+                spec = self._manager.get_spec_from_value(
+                    io_group=self._model.interface,
+                    value=val
+                )
+                if spec:
+                    self._manager.del_spec(spec)
+
     def change_ref(self, impl, name, value, refmode=None):
 
         refdict = impl.own_refs
